@@ -105,7 +105,8 @@ Definition extract_as_and_target_segment (s : seg) : res (option seg * seg) :=
   let as_segment := get_child s ["alias_expression"] in
   let sublist := list_child_segments s false in
   do t0 <- nth_res sublist 0;
-  do target <- (if tyis t0 "keyword" && String.eqb (raw_upper t0) "LATERAL" then nth_res sublist 1 else Ok t0);
+  (* a leading keyword (LATERAL sub-query; exasol's FROM TABLE t) is skipped when something follows it *)
+  do target <- (if tyis t0 "keyword" && Nat.ltb 1 (List.length sublist) then nth_res sublist 1 else Ok t0);
   do sq <- is_subquery target;
   do table_expr <- (if sq then Ok target else nth_res (children target) 0);
   Ok (as_segment, table_expr).
